@@ -322,10 +322,45 @@ fn run_parked_first() -> String {
     }
 }
 
+/// The only sender dies with its thread (a panic unwinds through its owner): the drop of a sender is a drop, whatever the reason - the loop
+/// must be woken, deliver Closed once and remove the source (C04).
+fn run_panicking_sender() -> String {
+    let (tx, chan) = calloop::channel::channel::<u64>();
+    let mut event_loop: EventLoop<'static, ()> = EventLoop::try_new().expect("loop");
+    let log: Log = Arc::new(Mutex::new(vec![]));
+    let l2 = log.clone();
+    let _t = event_loop
+        .handle()
+        .insert_source(chan, move |ev, _, _| match ev {
+            Event::Msg(v) => l2.lock().unwrap().push(format!("M{}", v)),
+            Event::Closed => l2.lock().unwrap().push("CLOSED".into()),
+        })
+        .expect("insert");
+    let _ = tx.send(1);
+    let _ = tx.send(2);
+    let _ = event_loop.dispatch(Some(Duration::ZERO), &mut ());
+    let prev = std::panic::take_hook();
+    std::panic::set_hook(Box::new(|_| {}));
+    let h = std::thread::spawn(move || {
+        let _owned = tx;
+        panic!("the sender's thread dies");
+    });
+    let _ = h.join();
+    std::panic::set_hook(prev);
+    for _ in 0..4 {
+        let _ = event_loop.dispatch(Some(Duration::ZERO), &mut ());
+    }
+    let closed = log.lock().unwrap().iter().filter(|l| *l == "CLOSED").count();
+    let out = log.lock().unwrap().join(" ");
+    format!("{} closed={}", out, closed)
+}
+
 pub fn run0() {
     crate::for_each_line(|l| {
         let r = if l.trim() == "parked" {
             std::panic::catch_unwind(run_parked_first).unwrap_or_else(|_| "PANIC".to_string())
+        } else if l.trim() == "panicdrop" {
+            std::panic::catch_unwind(run_panicking_sender).unwrap_or_else(|_| "PANIC".to_string())
         } else {
             std::panic::catch_unwind(run_f9).unwrap_or_else(|_| "PANIC".to_string())
         };
